@@ -16,7 +16,7 @@ from tsv import env
 
 env.setup_path()
 
-from tsv.base import Ctx, CaseTimeout, digest, short  # noqa: E402
+from tsv.base import Ctx, CaseTimeout, ProbeAbort, digest, short  # noqa: E402
 from tsv import findings  # noqa: E402
 
 MAX_FAIL_RECORDS = 40
@@ -27,6 +27,21 @@ def load_prop(pid):
     import importlib
     mod = importlib.import_module('tsv.props.' + pid.lower())
     return mod.PROP
+
+
+def setup_probes(prop, ctx, probed):
+    """`always_probes` are the cheap progress monitors a property needs on
+    every case (C06); `probes` are the full contracts of the probed pass."""
+    from tsv.probe import install
+    always = tuple(getattr(prop, 'always_probes', ()))
+    if always:
+        install.install(always, ctx)
+        ctx.probes_on = True
+        ctx.probes_light = True
+    if probed:
+        install.install(prop.probes, ctx)
+        ctx.probes_on = True
+        ctx.probes_light = False
 
 
 def _alarm(signum, frame):
@@ -54,6 +69,10 @@ def run_check(prop, payload, ctx):
     except CaseTimeout:
         fails = [{'check': 'timeout', 'detail':
                   'case exceeded the %ss alarm' % prop.case_alarm}]
+    except ProbeAbort as e:
+        fails = []
+        if not ctx.probe_violations:
+            fails = [{'check': 'probe-abort', 'detail': str(e)}]
     except RecursionError as e:
         fails = [{'check': 'exception', 'detail': 'RecursionError',
                   'frames': []}]
@@ -82,17 +101,17 @@ def main(argv):
     env.assert_repo()
     prop = load_prop(pid)
     ctx = Ctx()
-    if probed:
-        from tsv.probe import install
-        install.install(prop.probes, ctx)
-        ctx.probes_on = True
+    setup_probes(prop, ctx, probed)
 
     every = prop.probed_every if probed else 1
 
     def want(k):
+        # multiplicative hashing, so that shard membership and the probed
+        # subsample do not correlate with the generators' rotations over k
+        h = (k * 2654435761) & 0xffffffff
         if probed:
-            return k % every == 0 and (k // every) % nshards == shard
-        return k % nshards == shard
+            return (h >> 4) % every == 0 and (h >> 12) % nshards == shard
+        return (h >> 12) % nshards == shard
 
     t0 = time.time()
     res = {'pid': pid, 'tier': tier, 'seed': seed, 'shard': shard,
@@ -208,10 +227,7 @@ def replay(pid, path, out):
     prop = load_prop(pid)
     rec = json.load(open(path))
     ctx = Ctx()
-    if rec.get('probed'):
-        from tsv.probe import install
-        install.install(prop.probes, ctx)
-        ctx.probes_on = True
+    setup_probes(prop, ctx, rec.get('probed'))
     fails, herr = run_check(prop, rec['payload'], ctx)
     key = None
     if fails:
